@@ -30,10 +30,10 @@ static struct { _Bool closed, connected, listening, keepalive, blocking; int tim
 static PSocket *S;
 
 static void check_getters(void) {
-  VASSERT(p_socket_is_closed(S) == R.closed, "is_closed reflects the calls made");
-  VASSERT(p_socket_is_connected(S) == R.connected, "is_connected reflects the calls made");
-  VASSERT(p_socket_get_keepalive(S) == R.keepalive, "get_keepalive reflects the calls made");
-  VASSERT(p_socket_get_blocking(S) == R.blocking, "get_blocking reflects the calls made");
+  VASSERT((p_socket_is_closed(S) != 0) == R.closed, "is_closed reflects the calls made");
+  VASSERT((p_socket_is_connected(S) != 0) == R.connected, "is_connected reflects the calls made");
+  VASSERT((p_socket_get_keepalive(S) != 0) == R.keepalive, "get_keepalive reflects the calls made (truth value)");
+  VASSERT((p_socket_get_blocking(S) != 0) == R.blocking, "get_blocking reflects the calls made (truth value)");
   VASSERT(p_socket_get_timeout(S) == R.timeout, "get_timeout reflects the calls made");
   VASSERT(p_socket_get_listen_backlog(S) == R.backlog, "get_listen_backlog reflects the calls made");
   VASSERT(p_socket_get_fd(S) == (R.closed ? -1 : R.fd), "get_fd: the descriptor, -1 once closed");
@@ -95,8 +95,9 @@ void harness(void) {
     vs.env_kind = VS_ENV_NONE; vs.env_fired = 0;
     switch (op) {
     case 0: {   /* bind */
-      pboolean ok = p_socket_bind(S, LA, ND_BOOL(), &err);
-      if (ok) VASSERT(err == NULL && !R.closed && VFD(bound, fd) && same_row(VFD(local, fd), &la, len), "bind: bound to the given address");
+      _Bool reuse = ND_BOOL();
+      pboolean ok = p_socket_bind(S, LA, nd_pbool(reuse), &err);
+      if (ok) VASSERT(err == NULL && !R.closed && VFD(bound, fd) && VFD(reuse, fd) == reuse && same_row(VFD(local, fd), &la, len), "bind: bound to the given address, address reuse as requested");
       else check_failure(err, calls0, 0);
       break; }
     case 1: {   /* listen */
@@ -147,10 +148,15 @@ void harness(void) {
       break; }
     case 7: {   /* shutdown */
       _Bool rd = ND_BOOL(), wr = ND_BOOL();
-      pboolean ok = p_socket_shutdown(S, rd, wr, &err);
+      pboolean rdv = nd_pbool(rd), wrv = nd_pbool(wr);
+      _Bool shut_rd0 = R.closed ? 0 : VFD(shut_rd, fd), shut_wr0 = R.closed ? 0 : VFD(shut_wr, fd);
+#ifdef KF_OPEN_C10_shutdown_truthy_flags
+      VASSUME((rdv == 0 || rdv == 1) && (wrv == 0 || wrv == 1));     /* known finding: flags compared with == TRUE */
+#endif
+      pboolean ok = p_socket_shutdown(S, rdv, wrv, &err);
       if (ok) {
         VASSERT(err == NULL && !R.closed, "shutdown: only on an open socket");
-        if (rd || wr) VASSERT((!rd || VFD(shut_rd, fd)) && (!wr || VFD(shut_wr, fd)), "shutdown: requested directions shut in the kernel");
+        if (rd || wr) VASSERT(VFD(shut_rd, fd) >= rd && VFD(shut_wr, fd) >= wr && (shut_rd0 || rd || !VFD(shut_rd, fd)) && (shut_wr0 || wr || !VFD(shut_wr, fd)), "shutdown: exactly the requested directions shut in the kernel");
         else VASSERT(vs.ncalls == calls0, "shutdown of nothing does nothing");
         if (rd && wr) R.connected = 0;
       } else check_failure(err, calls0, 0);
@@ -163,10 +169,10 @@ void harness(void) {
       else VASSERT(vs.nclose == nclose0 + 1 && !VFD(open, fd), "close releases the descriptor");
       R.closed = 1; R.connected = 0; R.listening = 0;
       break; }
-    case 9: { _Bool b = ND_BOOL(); p_socket_set_blocking(S, b); R.blocking = b; break; }
+    case 9: { _Bool b = ND_BOOL(); p_socket_set_blocking(S, nd_pbool(b)); R.blocking = b; break; }
     case 10: { int t = ND_INT(); p_socket_set_timeout(S, t); R.timeout = t < 0 ? 0 : t; break; }
     case 11: {
-      _Bool k = ND_BOOL(); p_socket_set_keepalive(S, k);
+      _Bool k = ND_BOOL(); p_socket_set_keepalive(S, nd_pbool(k));
       if (!R.closed) { R.keepalive = k; VASSERT(VFD(keepalive, fd) == k, "keepalive option set on the descriptor"); }
       break; }
     default: {
